@@ -263,7 +263,7 @@ func checkTerminalAfterFilter(r *Run, p *packages.Package) {
 		}
 		n++
 		comparesStack := false
-		for _, l := range pathConditions(fd.Body, call) {
+		for _, l := range controlConds(fd.Body, call) {
 			ast.Inspect(l.Expr, func(y ast.Node) bool {
 				be, ok := y.(*ast.BinaryExpr)
 				if !ok || be.Op != token.EQL {
